@@ -18,7 +18,9 @@ class Validate:
     gfapy.FormatError
       If the content of the field is not valid, according to its required type.
     """
-    fieldname = self.__class__.FIELD_ALIAS.get(fieldname, fieldname)
+    if fieldname not in self._data:
+      # (a tag of the line may have the name of an alias, e.g. LN in GFA2 S lines)
+      fieldname = self.__class__.FIELD_ALIAS.get(fieldname, fieldname)
     if fieldname not in self._data:
       raise gfapy.NotFoundError("Field {} not found".format(fieldname))
     v = self._data[fieldname]
